@@ -1,5 +1,181 @@
+import Casket.Model.Reload
+import Casket.Spec.Reload
 import Driver.Proto
-/- Streams of C07 (stub: not built yet). -/
+/-
+Streams of C07.
+  c07.handover  S:<kind>  op op …     op = R:<kind> (reload) | T:<kind> (reload with a request in flight on address 1)
+     kinds: addresses served, e.g. 1, 12, 2, 21; suffix x = the configuration fails during setup; 3 = an address in use
+     out = step|step|…   step = <res>;fd=<f1>.<f2>;sk=<s1>.<s2>;p=<m1>.<m2>[;mid=<m>;str=<m>]
+  c07.storm     recorded trace of a reload storm under concurrent clients (see harness/streams/c07.go)
+-/
 namespace Driver.C07
-def streams : List Driver.Stream := []
+open Casket.Reload Casket.ReloadSpec
+
+def busy : List Nat := [3]
+
+def parseKind (s : String) : Option Cfg :=
+  let cs := s.toList
+  let (cs, x) := if cs.getLast? == some 'x' then (cs.dropLast, true) else (cs, false)
+  if cs.isEmpty then none else
+  if cs.all (fun c => c == '1' || c == '2' || c == '3') then
+    some { addrs := cs.map fun c => c.toNat - '0'.toNat, failSetup := x }
+  else none
+
+def parseHOp (s : String) : Option HOp :=
+  if s.startsWith "R:" then (parseKind (s.drop 2).toString).map .reload
+  else if s.startsWith "T:" then (parseKind (s.drop 2).toString).map .straddle
+  else none
+
+def reloadHead (g : Nat) (m : M) (c : Cfg) : List Act :=
+  [.begin g c, .setup] ++ List.replicate (c.addrs.length + 1) .listen ++ [.serve, .stopOld]
+    ++ List.replicate m.cur.addrs.length .stop
+
+/-- the marker a fresh connection to `a` gets right now (the accepting instance answers), `-` if refused -/
+def probe (m : M) (a : Nat) : M × String :=
+  let id := m.nextConn
+  let g := if m.new.accepts a then m.new.gen else m.cur.gen
+  let m' := run m [.connect a, .accept g a, .respond id]
+  match m'.conns.find? (·.id == id) with
+  | some c => (m', match c.answered with | some k => toString k | none => "hang")
+  | none => (m', "-")
+
+/-- socket identities renamed in order of first appearance -/
+def rename (seen : List Nat) (m : M) (a : Nat) : List Nat × Nat :=
+  if m.fds a = 0 then (seen, 0)
+  else match seen.idxOf? (m.sock a) with
+    | some i => (seen, i + 1)
+    | none => (seen ++ [m.sock a], seen.length + 1)
+
+def lastRes (before : Nat) (m : M) : String :=
+  match (m.events.drop before).reverse.find? (fun e => match e with | .reloadOk _ => true | .reloadFailed => true | _ => false) with
+  | some (.reloadOk _) => "ok"
+  | some .reloadFailed => "err"
+  | _ => "none"
+
+def observe (seen : List Nat) (m : M) (res : String) (mid str : Option String) : M × List Nat × HObs :=
+  let (seen, s1) := rename seen m 1
+  let (seen, s2) := rename seen m 2
+  let f1 := m.fds 1
+  let f2 := m.fds 2
+  let (m, p1) := probe m 1
+  let (m, p2) := probe m 2
+  (m, seen, { res := res, fd1 := f1, fd2 := f2, sk1 := s1, sk2 := s2, p1 := p1, p2 := p2, mid := mid, str := str })
+
+def runOps : Nat → List Nat → M → List HOp → List HObs
+  | _, _, _, [] => []
+  | g, seen, m, .reload c :: rest =>
+    let before := m.events.length
+    let m := run m (reloadHead g m c ++ [.finish])
+    let res := lastRes before m
+    let (m, seen, o) := observe seen m res none none
+    o :: runOps (g + 1) seen m rest
+  | g, seen, m, .straddle c :: rest =>
+    let before := m.events.length
+    let sid := m.nextConn
+    let m := run m [.connect 1, .accept m.cur.gen 1]
+    let connected := m.nextConn != sid
+    let m := run m (reloadHead g m c)
+    let (m, mid) := probe m 1
+    let m := if connected then run m [.respond sid] else m
+    let str := if !connected then "-" else match m.conns.find? (·.id == sid) with
+      | some c => (match c.answered with | some k => toString k | none => "hang")
+      | none => "-"
+    let m := run m [.finish]
+    let res := lastRes before m
+    let (m, seen, o) := observe seen m res (some mid) (some str)
+    o :: runOps (g + 1) seen m rest
+
+/-- the model's observations of a hand-over case -/
+def handoverRun (c0 : Cfg) (hops : List HOp) : List HObs :=
+  let m := M.init busy c0.addrs
+  let (m, seen, o) := observe [] m "ok" none none
+  o :: runOps 2 seen m hops
+
+def showObs (o : HObs) : String :=
+  let base := s!"{o.res};fd={o.fd1}.{o.fd2};sk={o.sk1}.{o.sk2};p={o.p1}.{o.p2}"
+  match o.mid, o.str with
+  | some m, some s => s!"{base};mid={m};str={s}"
+  | _, _ => base
+
+def parseCase : List String → Option (Cfg × List HOp)
+  | [] => none
+  | s :: ops =>
+    if !s.startsWith "S:" then none else
+    match parseKind (s.drop 2).toString, ops.mapM parseHOp with
+    | some c, some hops => if c.failSetup || c.addrs.contains 3 then none else some (c, hops)
+    | _, _ => none
+
+def handoverModel (f : List String) : String :=
+  match parseCase f with
+  | none => "bad-case"
+  | some (c, hops) => "|".intercalate ((handoverRun c hops).map showObs)
+
+def stripPrefix (p s : String) : Option String :=
+  if s.startsWith p then some (s.drop p.length).toString else none
+
+def pair (s : String) : Option (String × String) :=
+  match s.splitOn "." with
+  | [a, b] => some (a, b)
+  | _ => none
+
+def parseObs (s : String) : Option HObs :=
+  match s.splitOn ";" with
+  | r :: fd :: sk :: p :: rest => do
+    let (f1, f2) ← pair (← stripPrefix "fd=" fd)
+    let (s1, s2) ← pair (← stripPrefix "sk=" sk)
+    let (p1, p2) ← pair (← stripPrefix "p=" p)
+    let base : HObs := { res := r, fd1 := ← f1.toNat?, fd2 := ← f2.toNat?, sk1 := ← s1.toNat?, sk2 := ← s2.toNat?,
+                         p1 := p1, p2 := p2, mid := none, str := none }
+    match rest with
+    | [] => pure base
+    | [m, t] => pure { base with mid := some (← stripPrefix "mid=" m), str := some (← stripPrefix "str=" t) }
+    | _ => none
+  | _ => none
+
+def handoverJudge (f : List String) (out : String) : String :=
+  match parseCase f with
+  | none => if out = "bad-case" then "ok" else "bad:malformed-case-accepted:" ++ out
+  | some (c, hops) =>
+    match (out.splitOn "|").mapM parseObs with
+    | none => "bad:unparsable:" ++ out
+    | some obs => verdict busy c hops obs
+
+/-! c07.storm  kinds  reloads  requests     (recorded by the generator from a run of the real code)
+      reloads  = comma list of call:ret:gen:ok        requests = comma list of start:stop:answer   (answer - = failed)
+      out      = reloads=<ok>/<all>;requests=<answered>/<all>                                          -/
+
+def parseReload (s : String) : Option SReload :=
+  match s.splitOn ":" with
+  | [a, b, g, k] => do pure { call := ← a.toNat?, ret := ← b.toNat?, gen := ← g.toNat?, ok := k == "1" }
+  | _ => none
+
+def parseRequest (s : String) : Option SRequest :=
+  match s.splitOn ":" with
+  | [a, b, g] => do
+    pure { start := ← a.toNat?, stop := ← b.toNat?, answer := ← (if g == "-" then some none else g.toNat?.map some) }
+  | _ => none
+
+def parseStorm : List String → Option (List SReload × List SRequest)
+  | [_, rs, qs] => do
+    let rs ← if rs = "" then some [] else (rs.splitOn ",").mapM parseReload
+    let qs ← if qs = "" then some [] else (qs.splitOn ",").mapM parseRequest
+    pure (rs, qs)
+  | _ => none
+
+def stormModel (f : List String) : String :=
+  match parseStorm f with
+  | none => "bad-case"
+  | some (rs, qs) =>
+    s!"reloads={(rs.filter (·.ok)).length}/{rs.length};requests={(qs.filter (·.answer.isSome)).length}/{qs.length}"
+
+def stormJudge (f : List String) (_out : String) : String :=
+  match parseStorm f with
+  | none => "bad:unparsable:"
+  | some (rs, qs) => stormVerdict rs qs
+
+def streams : List Driver.Stream := [
+  { name := "c07.handover", model := handoverModel, judge := handoverJudge },
+  { name := "c07.storm", model := stormModel, judge := stormJudge }
+]
+
 end Driver.C07
